@@ -31,6 +31,7 @@ import (
 	"path/filepath"
 	"strconv"
 	"strings"
+	"time"
 
 	vegeta "github.com/tsenart/vegeta/v12/lib"
 	"vharness/gen"
@@ -841,10 +842,18 @@ func runC08(c *run.Ctx, s *kit.Summary) {
 		replay(c, s)
 		return
 	}
+	t0 := time.Now()
+	phase := func(name string) {
+		s.Extra["wall_s:"+name] = int(time.Since(t0).Seconds())
+		t0 = time.Now()
+	}
 	// detect oracle
-	for i := 0; i < c.N(2000, 60000); i++ {
+	for i := 0; i < c.N(2000, 50000); i++ {
 		rs, profile := genRecords(r, true)
 		sc := streamCase{Enc: encodings[r.Pick(3)], Records: rs, Chunk: genChunk(r)}
+		if profile == "big-all" && len(rs) > 2 && sc.Chunk.Mode == "fixed" && sc.Chunk.Size <= 3 && !r.Chance(0.25) {
+			sc.Chunk.Size = 7 // byte-wise reading of several big records only now and then (run time)
+		}
 		runDetect(sc, s)
 		s.Case(fmt.Sprintf("detect:%d", i), len(rs) >= 2)
 		s.Count("detect:enc=" + sc.Enc)
@@ -854,9 +863,11 @@ func runC08(c *run.Ctx, s *kit.Summary) {
 			s.Sample(map[string]interface{}{"what": "detect", "enc": sc.Enc, "records": len(rs), "profile": profile, "chunk": sc.Chunk})
 		}
 	}
+	phase("detect")
 	// garbage oracle (in child processes: encoding/gob allocates whatever length a damaged stream
 	// announces — e.g. a header map of 0xdb162a0c entries — and the resulting out-of-memory is fatal)
 	runGarbageBatches(c, s, c.N(3000, 100000))
+	phase("garbage")
 	// model correspondence, real decoders
 	st := &kit.Stream{Name: "c08.sniff(real decoders)"}
 	for i := 0; i < c.N(400, 6000); i++ {
@@ -882,6 +893,7 @@ func runC08(c *run.Ctx, s *kit.Summary) {
 		}
 	}
 	st.Diff(c.Driver, s)
+	phase("model-real")
 	// model correspondence, scripted decoders
 	ss := &kit.Stream{Name: "c08.sniff(scripted)"}
 	for i := 0; i < c.N(3000, 100000); i++ {
@@ -894,6 +906,7 @@ func runC08(c *run.Ctx, s *kit.Summary) {
 		}
 	}
 	ss.Diff(c.Driver, s)
+	phase("model-scripted")
 	runFirstBytes(c, s, r)
 	// chains
 	chains := allChains(4)
@@ -912,6 +925,7 @@ func runC08(c *run.Ctx, s *kit.Summary) {
 			batch = batch[:0]
 		}
 	}
+	phase("chains")
 }
 
 func clip(x string) string {
